@@ -1671,8 +1671,12 @@ pub enum Weird {
     Text,
     #[serde(rename = "-a")]
     Dash,
+    #[serde(rename = "é b")]
+    NonAsciiSp,
+    #[serde(rename = "é><x/")]
+    NonAsciiInject,
 }
-pub const WEIRD_ALL: [Weird; 10] = [Weird::Lt, Weird::Sp, Weird::Digit, Weird::Empty, Weird::Gt, Weird::Colon, Weird::Fine, Weird::At, Weird::Text, Weird::Dash];
+pub const WEIRD_ALL: [Weird; 12] = [Weird::Lt, Weird::Sp, Weird::Digit, Weird::Empty, Weird::Gt, Weird::Colon, Weird::Fine, Weird::At, Weird::Text, Weird::Dash, Weird::NonAsciiSp, Weird::NonAsciiInject];
 
 #[derive(Serialize, Debug, PartialEq, Clone)]
 #[serde(rename = "s_weird")]
@@ -1738,6 +1742,8 @@ pub struct AnyMap {
 pub const KEY_POOL: &[&str] = &[
     "", "@", "@x y", "$text", "$value", "<", ">", "a:b", "ok", "k1", "a b", "1a", "@fine", "@a<b", "é", "-x", "x-", "a.b", "@", "@@", "@$text", "xml", "xmlns", "@xmlns", "@xmlns:p", "a\"b", "a'b", "a&b",
     "\u{0}", "@\u{0}", " ", "@ ", "a=b", "a/b", "/", "@/", "@a", "@@a", "@@@a", "@@fine", "a", "@k1", "@@k1", "$$text", "@$value",
+    // a legal non-ASCII first character followed by something illegal (and legal look-alikes)
+    "é b", "é>", "é><evil/", "é<", "éa\"b", "日 本", "日本", "Ωa/b", "Ω=1", "@é b", "@é>", "@日=\"x\"", "éé", "é-1.x", "ж\u{0}", "é\u{B7}", "\u{B7}é",
 ];
 
 /// mixed content with items that write nothing (None, empty list) between text and elements
